@@ -25,10 +25,13 @@ C = {
          "TLA+ Validation.tla defect predicates vs. library validate()/parsers/constructors (Trace_Ast)"),
  "C13": ("interp-pipeline", "model_checking", "every library satisfaction and every single-element mutation of it, under every lock/sequence environment, is run through the real interpreter with real signature checks and re-executed by the TLA+ VM under consensus rules: accept => VM accepts, constraint bag = VM executed-path log, constraints satisfy the lifted policy; completeness on sane descriptors", "5/C13",
          "TLA+ Script VM as reference executor vs. real Interpreter on mutated witnesses (Trace_Interp)"),
+ "C17": ("plan-pipeline", "model_checking", "plans from real Assets vs. the equivalent satisfier (existence equivalence, byte-identical completion) and necessity/sufficiency of reported locks by re-completing the plan in transactions with exact / weaker locks and validating each in the TLA+ VM; bounded-exhaustive over ASTs x wrappers x worlds x 2 modes", "5/C17",
+         "TLA+ VerifyInput on plan completions under exact and weakened lock environments (Trace_Plan)"),
  "C19": ("pairs-pipeline", "model_checking", "full ordered pair matrix of ==, cmp, hash and to_string over every well-typed miniscript up to the node bound plus near-miss families, in explicit and sugared text, 4 contexts; every cell judged against abstract AST identity; ordering checked to be a strict total order (distinct scores)", "5/C19",
          "structural identity of abstract ASTs (TLA+ Gen_Pairs) vs. library Eq/Ord/Hash matrix (Trace_Eq)"),
 }
 ENG = {
+ "plan-pipeline": ("bin/check (run_plan)", "TLC Gen_Sat -> msverif plan (Assets, plan/plan_mall, lock variants) -> TLC Trace_Plan"),
  "interp-pipeline": ("bin/check (run_interp)", "TLC Gen_Sat -> msverif interp (library satisfactions + rendered mutations) -> TLC Trace_Interp"),
  "typesound-pipeline": ("bin/check (run_typesound)", "TLC Gen_Ast -> msverif ast -> TLC Trace_TypeSound + MC_TypeSound"),
  "pairs-pipeline": ("bin/pipe_generic.py", "TLC Gen_Pairs -> msverif pairs -> TLC Trace_Eq"),
